@@ -16,7 +16,14 @@ import (
 	"time"
 )
 
-const VerifDir = "/verif"
+// VerifDir is the directory holding known-findings.json, evidence/ and replays/ (the directory of
+// the check script; /verif unless the check runs from a snapshot).
+var VerifDir = func() string {
+	if d := os.Getenv("VERIF_DIR"); d != "" {
+		return d
+	}
+	return "/verif"
+}()
 
 // Finding is one entry of /verif/known-findings.json.
 type Finding struct {
